@@ -1,6 +1,7 @@
 /- C05 — first engine facts; the driver invariant (G2) is added below as it lands. -/
 import Stab.Lemmas.EngineBasic
 import Stab.Lemmas.EngineClaim
+import Stab.Lemmas.EngineLive2
 namespace Stab.Props.C05
 open Stab Stab.Engine
 /-- A workflow with a TERMINAL stage is never reported SUCCEEDED by `_determine_final_status`; it is TERMINAL. -/
@@ -79,5 +80,62 @@ theorem no_claim_after_finish (c : Cfg) (s : State) (row : Row) (i : Nat) (e : E
   obtain ⟨new, rfl, hns, _⟩ := hcl
   have : hStartStage c s row.id i r = [] := startStage_after_finish_is_inert c s row.id i r hf hns
   simp [handle, hm, this] at he
+
+/-! ### the driver invariant: a drained queue means a final workflow (plain workload class) -/
+
+/-- **Whenever the queue is drained the workflow is in a final status** — for every workflow of the plain class
+    (`PlainCfg`: AND-join DAG with requisites listed before the stage, every stage with at least one task, task
+    results success / terminal failure / failed-continue / exception / transient failure with retries / RUNNING polls;
+    no OR-split, stageEnabled, failPipeline=False, jumps or suspends) and EVERY delivery schedule: any pending message
+    may be delivered next (each delivery acknowledged), in any order, for any number of steps.  Proved through the
+    inductive invariant `Live` (`Stab/Lemmas/EngineLive2.lean`): every RUNNING stage owns exactly one matching token
+    message, every startable stage a StartStage, every failed or fully completed workflow a CompleteWorkflow. -/
+theorem quiescent_is_final (c : Cfg) (hc : PlainCfg c) (ops : List Op) (hd : DeliverOnly ops)
+    (hq : (run c ops).queue = []) : (run c ops).wfStatus.isComplete = true :=
+  live_quiescent_final c hc _ (run_live c hc ops hd) hq
+
+/-- … and while messages are pending in a non-final workflow none of its RUNNING stages is orphaned: each has its
+    one token message in the queue (so "no handler running and queue empty" cannot coexist with a RUNNING stage). -/
+theorem running_stage_has_its_message (c : Cfg) (hc : PlainCfg c) (ops : List Op) (hd : DeliverOnly ops) (i : Nat)
+    (hi : i < c.n) (hw : (run c ops).wfStatus.isComplete = false) (hr : ((run c ops).stage i).status = .running) :
+    ∃ x ∈ (run c ops).queue, isTok i x.msg = true := by
+  rcases (run_live c hc ops hd).cases with h1 | h1 | h1
+  · rw [h1] at hw; cases hw
+  · rw [(h1.pristine i hi).1] at hr; cases hr
+  · obtain ⟨k, w, _, htk, hw', _⟩ := (h1.stages i hi).busy hr
+    exact ⟨w, hw', tokOK_isTok i _ k _ htk⟩
+
+/-- the statement is FALSE outside the plain class as soon as jumps are allowed (known findings F4 / F28: jump loops
+    can wedge), which is why no unconditional version exists; for joins other than AND, OR-splits, disabled stages,
+    suspends and for schedules with redeliveries / crashes / sweeps it is explored by the monitors (`mon_c05`). -/
+theorem quiescent_is_final_partial (c : Cfg) (hc : PlainCfg c) (ops : List Op) (hd : DeliverOnly ops)
+    (hq : (run c ops).queue = []) : (run c ops).wfStatus.isComplete = true := quiescent_is_final c hc ops hd hq
+
+-- non-vacuity: a plain two-stage workflow whose second stage fails; delivering its 14 messages in order drains the queue
+def plainDemo : Cfg :=
+  { wfMaxj := none,
+    stages := [
+      { reqs := [], join := JoinType.and, threshold := 0, cont := false, failp := true, enabled := none, maxj := none,
+        tasks := [[Outcome.succ]] },
+      { reqs := [0], join := JoinType.and, threshold := 0, cont := false, failp := true, enabled := none, maxj := none,
+        tasks := [[Outcome.terminal]] }] }
+
+example : PlainCfg plainDemo := by
+  refine ⟨?_, ?_⟩
+  · intro sc hsc
+    simp [plainDemo] at hsc
+    rcases hsc with rfl | rfl <;> refine ⟨rfl, rfl, rfl, rfl, by simp, ?_⟩ <;> intro script hs o ho <;> simp at hs <;> subst hs <;> simp at ho <;> subst ho <;> rfl
+  · intro i u hu
+    match i with
+    | 0 => simp [plainDemo, Cfg.reqs, Cfg.stage] at hu
+    | 1 => simp [plainDemo, Cfg.reqs, Cfg.stage] at hu; omega
+    | (n + 2) =>
+      simp [plainDemo, Cfg.reqs, Cfg.stage] at hu
+      have hd : (default : StageCfg).reqs = [] := rfl
+      rw [hd] at hu; cases hu
+
+def plainDemoOps : List Op := (List.range 14).map (fun k => Op.deliver (k + 1))
+
+example : (run plainDemo plainDemoOps).queue = [] ∧ (run plainDemo plainDemoOps).wfStatus = .terminal := by decide
 
 end Stab.Props.C05
